@@ -76,7 +76,8 @@ impl Scenario for C04 {
                     let wi = rng.usize_below(state.insts.len());
                     let rule = rng.below(u64::from(N_RULES)) as u8;
                     let shard = rng.below(3) as u8;
-                    let prog = gen_prog(rng, &state, wi, rule, nonce, &kn);
+                    let templ = if rng.chance(1, 5) { crate::world::gen::gen_repoint_delete(rng, &state, wi, rule, nonce) } else { None };
+                    let prog = templ.unwrap_or_else(|| gen_prog(rng, &state, wi, rule, nonce, &kn));
                     nonce += 1;
                     let w = state.insts[wi].w;
                     state.insts[wi].progs.push((k, shard, prog));
